@@ -163,17 +163,23 @@ VICTIM = os.path.join(BUILD, "crashvictim")
 
 
 def run_check(d):
-    p = subprocess.run([VICTIM, "check", d], stdout=subprocess.PIPE, stderr=subprocess.STDOUT, text=True, timeout=120)
+    try:
+        p = subprocess.run([VICTIM, "check", d], stdout=subprocess.PIPE, stderr=subprocess.STDOUT, text=True, timeout=60)
+    except subprocess.TimeoutExpired:
+        # the real open never returns (e.g. a cyclic chain): as unopenable as an error
+        return dict(open="checker hung (open did not return in 60 s)", chain=[], size=0, rev=-1, live=[], images={}, flags={}, garbage=[])
     for line in p.stdout.splitlines():
         if line.startswith("CHECK "):
             return json.loads(line[6:])
     return dict(open="checker died: " + p.stdout[-300:], chain=[], size=0, rev=-1, live=[], images={}, flags={}, garbage=[])
 
 
-def run_victim(d, op, arg, trace_out, inject=None):
+def run_victim(d, op, arg, trace_out, inject=None, plain=False):
     cmd = ["strace", "-f", "-s", "4096", "-o", trace_out, "-e", "trace=" + TRACE_SET]
     if inject:
         cmd += ["-e", "inject=" + inject]
+    if plain:
+        cmd = []
     cmd += [VICTIM, "op", d, op, arg]
     try:
         p = subprocess.run(cmd, stdout=subprocess.PIPE, stderr=subprocess.STDOUT, text=True, timeout=120)
@@ -335,13 +341,20 @@ def run(prop, tier, seed, replay=None):
                 _, calls = parse_strace(tr, d)
                 fevs = abstract(calls, d, "%s!%d!%s" % (rid, k, errno))
             chk = run_check(d)
+            # the interrupted / failed operation is issued again on the recovered directory (what a
+            # supervisor or a retrying caller does next): it may succeed or be refused, but the
+            # directory must again be a consistent before- or after-state with every image intact
+            retry = None
+            if chk["open"] == "ok" and info["op"] not in ("close", "open"):
+                r2 = run_victim(d, info["op"], info["arg"], None, plain=True)
+                retry = dict(res=r2, check=run_check(d))
             shutil.rmtree(d, ignore_errors=True)
             try:
                 os.remove(tr)
             except OSError:
                 pass
             return dict(kind=kind, rid=rid, k=k, errno=errno, sys=e["sys"], path=e["path"], ev=e["ev"], prev=prev,
-                        res=res, check=chk, events=fevs)
+                        res=res, check=chk, events=fevs, retry=retry)
 
         with ThreadPoolExecutor(max_workers=NCPU) as ex:
             outcomes = list(ex.map(do_task, tasks))
@@ -377,6 +390,11 @@ def run(prop, tier, seed, replay=None):
         for o in outcomes:
             info = infos[o["rid"]]
             rules = judge(o["kind"], info["op"], info["before"], info["after"], o["check"], o["res"]["res"])
+            if not rules and o.get("retry") and o["retry"]["res"]["res"] in ("ok", "err", "died", "hang"):
+                # (head files are numbered: a second revert / snapshot legitimately ends on another head name)
+                nh = lambda st: dict(st, chain=st["chain"][:-1] + ["HEAD"]) if st.get("chain") else st
+                rules = ["Retry." + x for x in judge("fail", info["op"], nh(info["before"]), nh(info["after"]),
+                                                     nh(o["retry"]["check"]), o["retry"]["res"]["res"])]
             if o["res"]["res"] == "setup-error":
                 raise HarnessError("victim set-up failed: %s" % o["res"])
             # binding: the model's prediction for this boundary vs. the real recovery
